@@ -28,11 +28,12 @@ from .. import nets
 PROPERTY = 'C08'
 LEVEL = 'fault_enumeration'
 LEVEL_TEXT = ("Exhaustive fault x cause x instant enumeration on the real code under the virtual "
-              "loop: 13 circuit compositions x (no fault or one injected exception at every "
+              "loop: 18 circuit compositions x (no fault or one injected exception at every "
               "(probe block, life-cycle phase)) x 9 termination causes x 5 instants x 2 entry "
               "points x rank permutations of the block sets; every execution is judged by "
               "start/stop counters and order, a census of pending tasks and timers when the "
-              "simulation is over, the logs of the output functions and the frozen circuit.")
+              "simulation is over, the logs of the output functions and the frozen circuit; plus "
+              "aborted clean-ups (a second cancellation while stop_async is awaited) under a reduced oracle.")
 LEVEL_NOTE = ("Virtual time; SIGTERM is delivered with signal.raise_signal in the worker's main "
               "thread to edzed's real handler; 'pending' = tasks of the loop other than the "
               "driver and live timer handles at the moment run()/run_forever() is finished.")
